@@ -19,6 +19,7 @@ type c05Chunk struct {
 	Last    bool   `json:"last"`
 	Variant string `json:"variant"` // "", "3args", "badlast"
 	Kind    string `json:"kind"`    // payload generator
+	SizeTxt string `json:"size_text"` // how the size is written (RFC 3030: 1*DIGIT, decimal; leading zeros allowed)
 	payload []byte
 }
 
@@ -86,7 +87,7 @@ func (cv *c05Conv) steps(idx int) []c05Step {
 		}
 	}
 	for i, ch := range cv.Chunks {
-		line := fmt.Sprintf("BDAT %d", ch.N)
+		line := "BDAT " + ch.SizeTxt
 		switch ch.Variant {
 		case "3args":
 			if ch.Last {
@@ -308,6 +309,10 @@ func genC05(rng *rand.Rand, n int) []*c05Conv {
 				}
 			}
 			ch.Last = j == nch-1 && rng.Intn(5) != 0 || (ch.Variant == "3args" && rng.Intn(2) == 0)
+			ch.SizeTxt = fmt.Sprint(ch.N)
+			if rng.Intn(4) == 0 {
+				ch.SizeTxt = strings.Repeat("0", 1+rng.Intn(3)) + ch.SizeTxt // still decimal
+			}
 			ch.payload = c05Payload(ch.Kind, ch.N, rng)
 			cv.Chunks = append(cv.Chunks, ch)
 		}
